@@ -10,7 +10,8 @@ TECHNIQUE = "reference construction of the documented hypothetical population + 
 RULE = (
     "cases: pilot (non-constant pilot shorter than N, tiled); prefix (a prefix that already crosses at k, any seed / reps / "
     "quantile); comparison (bound-1 assorter, clean value 1/(2-v), one-vote value at every floor(1/r1)-th position from 0, 0 at "
-    "every floor(1/r2)-th); polling (reported tallies interleaved); contest (estimate = max over assertions); interleave "
+    "every floor(1/r2)-th); polling (reported tallies interleaved); contest (estimate = max over assertions); audit (max over "
+    "contests of the max over unconfirmed assertions, 0 for a contest confirmed since an earlier estimate); interleave "
     "(exact counts). Oracle: first index at which the same test's history on that population is <= the risk limit, else N. "
     "Non-trivial = the crossing happens strictly inside the population (1 < k < N) or never; for interleave = all three "
     "values requested. distinct = canonical JSON."
@@ -320,9 +321,26 @@ def evaluate(case, out):
             proved = keys[0] if (len(keys) > 1 and case["N"] % 2 == 0) else None
             if proved:
                 con.assertions[proved].proved = True
-            total = audit.find_sample_size({"C": con})
+            group = {"C": con}
+            if case["N"] % 3 == 0:
+                # a second contest that an earlier call estimated (under more pessimistic assumed error rates) and that has been
+                # confirmed since: nothing of it is left to estimate, and the audit's figure is that of the open contest
+                import copy as _copy
+
+                _, done = _contest(case)
+                group = {"D": done, "C": con} if case["N"] % 2 else {"C": con, "D": done}
+                pess = _copy.copy(audit)
+                if case["audit_type"] != "POLLING":
+                    pess.error_rate_1, pess.error_rate_2 = 0.2, 0.1
+                pess.find_sample_size(group)
+                for a in done.assertions.values():
+                    a.proved = True
+                out.cls("with-a-contest-confirmed-since-an-earlier-estimate")
+            total = audit.find_sample_size(group)
             want = max(v for k, v in wants.items() if k != proved)
             out.expect(con.sample_size == want and total == want, "audit-estimate!=max-over-unproved-assertions", lambda: (con.sample_size, total, wants, proved))
+            if "D" in group:
+                out.expect(group["D"].sample_size == 0, "confirmed-contest-keeps-an-earlier-estimate", lambda: group["D"].sample_size)
             out.nontrivial = len(set(wants.values())) > 1
         elif mode == "contest":
             if case["N"] % 2 == 0 and case["audit_type"] != "POLLING":
